@@ -341,7 +341,7 @@ int SHA384Reset(SHA384Context *context)
  *
  */
 int SHA384Input(SHA384Context *context,
-    const uint8_t *message_array, unsigned int length)
+    const uint8_t *message_array, size_t length)
 {
   return SHA512Input(context, message_array, length);
 }
@@ -438,7 +438,7 @@ int SHA512Reset(SHA512Context *context)
  */
 int SHA512Input(SHA512Context *context,
         const uint8_t *message_array,
-        unsigned int length)
+        size_t length)
 {
   if (!length)
     return shaSuccess;
